@@ -87,9 +87,11 @@ def run(ctx):
         f = {x["name"]: ix.canon(x["e"]) for x in lits[0]["fields"]} if lits else {}
         ctx.check(f == {"requested": "$0", "max": "$1"}, RC, "check_window_size::reports-both", body["file"],
                   "the error reports the requested size and the effective limit", observed=f)
-        t = hq.tail_expr(body["body"])
-        ctx.check(ix.canon(t) == "core::result::Result::Ok(())" and len(hq.find(body["body"], lambda x: x.get("k") == "Ret")) == 1,
-                  RC, "check_window_size::accepts-otherwise", body["file"], "everything at or below the limit is accepted")
+        # case table of the result (if/else and early-return spellings alike): Ok(()) exactly under size <= limit
+        cases = [(c, v) for c, v, _ in ix.result_cases()]
+        oks = [c for c, v in cases if v == "core::result::Result::Ok(())"]
+        ctx.check(len(cases) == 2 and oks == [["($0 <= $1)"]], RC, "check_window_size::accepts-otherwise", body["file"],
+                  "everything at or below the limit is accepted", observed=cases)
     ctx.guard(RC, "cmp", cmp_)
 
     RW = "C11.who.limit"
